@@ -405,6 +405,80 @@ def r_equality_family(ctx, sym, h):
                   "negated form passes)", "%s(call('f'), 1) where f raises" % name)
 
 
+def module_level_function(ctx, sym, mod, name, needs=()):
+    """A function that the module defines at top level under a condition (`if table is None: def f ... else: def f`):
+    the top-level statements that bind `name` or one of `needs` are interpreted in order, and whatever `name` is bound
+    to afterwards is returned as a callable."""
+    from ..fdeval import module_resolver
+    wanted = {name} | set(needs)
+
+    def binds(st):
+        for n in ast.walk(st):
+            if isinstance(n, (ast.FunctionDef, ast.ClassDef)) and n.name in wanted:
+                return True
+            if isinstance(n, ast.Name) and isinstance(n.ctx, ast.Store) and n.id in wanted:
+                return True
+        return False
+    fd = FD(max_steps=200000, resolver=module_resolver(sym, mod))
+    fd.calls['set'] = lambda x=(): set(x)
+    fd.calls['len'] = len
+    env = {}
+    try:
+        for st in mod.tree.body:
+            if isinstance(st, (ast.Try, ast.If, ast.Assign, ast.FunctionDef)) and binds(st):
+                fd.stmt(st, env)
+    except Raised as e:
+        raise AnalysisError("module-level definition of %s in %s raises %s" % (name, mod.relpath, e.kind))
+    except Inconclusive as e:
+        raise AnalysisError("module-level definition of %s in %s is outside the decidable fragment: %s" % (
+            name, mod.relpath, e))
+    if not callable(env.get(name)):
+        raise AnalysisError("anchor vanished: function %s in %s" % (name, mod.relpath))
+    return env[name]
+
+
+class _ProxiedValue:
+    """What equality_test sees of a proxied call result (the proxy's own transparency is C16's business): isinstance
+    answers for the wrapped value, type() does not, and length, iteration, comparison and hashing pass through."""
+
+    def __init__(self, value):
+        object.__setattr__(self, '_value', value)
+
+    @property
+    def __class__(self):
+        return type(object.__getattribute__(self, '_value'))
+
+    def _v(self):
+        return object.__getattribute__(self, '_value')
+
+    def __len__(self):
+        return len(self._v())
+
+    def __iter__(self):
+        return iter(self._v())
+
+    def __getitem__(self, k):
+        return self._v()[k]
+
+    def __contains__(self, k):
+        return k in self._v()
+
+    def __eq__(self, other):
+        return self._v() == (other._v() if type(other) is _ProxiedValue else other)
+
+    def __ne__(self, other):
+        return not self.__eq__(other)
+
+    def __hash__(self):
+        return hash(self._v())
+
+    def keys(self):
+        return self._v().keys()
+
+    def __repr__(self):
+        return 'proxy(%r)' % (self._v(),)
+
+
 def r6_equality_symmetry(ctx, sym):
     ctx.rule('R6', "equality_test is independent of argument order: executed abstractly on pairs (ints, floats near "
                    "the tolerance, bools, strings differing by case/punctuation, lists, tuples, dicts, sets, None) in "
@@ -413,8 +487,8 @@ def r6_equality_symmetry(ctx, sym):
     fn = mod.func('equality_test')
     ctx.analysed_function(mod, fn)
     import numbers
-    import string as _string
-    table = str.maketrans(_string.punctuation, ' ' * len(_string.punctuation))
+    # pedal's own strip_punctuation, as the module defines it (a table built at import time picks one of two versions)
+    strip_punctuation = module_level_function(ctx, sym, mod, 'strip_punctuation', needs=('punctuation_table',))
     env = {'Number': numbers.Number, 'LIST_GENERATOR_TYPES': (type(map(bool, [])), type(filter(bool, [])),
                                                               type(range(0)), type(reversed([])), type(zip()),
                                                               type(enumerate([]))),
@@ -440,7 +514,7 @@ def r6_equality_symmetry(ctx, sym):
         fd.calls['set'] = lambda x=(): set(x)
         fd.calls['len'] = len
         fd.calls['zip'] = lambda *a: list(zip(*a))
-        fd.calls['strip_punctuation'] = lambda s: s.translate(table)
+        fd.calls['strip_punctuation'] = strip_punctuation
         fd.calls['re.sub'] = re.sub
         fd.calls['sorted'] = sorted
         fd.attr_hook = lambda base, attr: getattr(base, attr)
@@ -455,7 +529,11 @@ def r6_equality_symmetry(ctx, sym):
     # documented semantics (tolerance .001, case/punctuation/whitespace-insensitive strings, recursive containers)
     documented = {(5.0, 5.0005): True, (5, 5): True, (5, 6): False, (1.0, 1): True, ('Hello!', 'hello'): True,
                   ('a b', 'a  b'): True, ('a', 'b'): False, ((1, 'A'), (1, 'a')): True, (None, None): True,
-                  (None, 0): False, (5.0, 5.1): False}
+                  (None, 0): False, (5.0, 5.1): False,
+                  # (punctuation next to a blank or at the end: the documentation - "remove all punctuation
+                  # characters" - and the implementation - replace each by a blank - agree; between two word
+                  # characters they do not, and no side is taken here)
+                  ('Hello, world!', 'hello world'): True, ('(a) b.', 'a b'): True}
     # containers of different sizes are different, whichever side is the larger one
     for a, b in (({'a': 1, 'b': 2}, {'a': 1}), ([1, 2, 3], [1, 2]), ((1, 2), (1, 2, 3)), ({1, 2, 3}, {1, 2}),
                  ({}, {'a': 1})):
@@ -501,6 +579,27 @@ def r6_equality_symmetry(ctx, sym):
                                                                   'is %s' % got, want),
                       "assert_equal(%r, %r) and assert_not_equal on the same operands both pass silently (KeyError "
                       "inside the condition)" % (x, y))
+    # one operand is the proxied result of a call (isinstance sees the wrapped value, type() does not): the answer is
+    # the one for the plain values, in every wrapping combination and both orders
+    for a, b, want in (([1.0004, 2.5], [1.0, 2.5], True), ((1, 'Ada!'), (1, 'ada'), True), ({1.0004}, {1.0}, True),
+                       (frozenset({'A'}), frozenset({'a'}), True), ([[1.0004]], [[1.0]], True),
+                       ([1.0, 2.5], [1.0, 2.6], False), ({'k': [1.0004]}, {'k': [1.0]}, True),
+                       ([1, 2], (1, 2), False)):
+        for wrap_a, wrap_b in ((True, False), (False, True), (True, True)):
+            for x, y in ((a, b), (b, a)):
+                px = _ProxiedValue(x) if wrap_a else x
+                py = _ProxiedValue(y) if wrap_b else y
+                fd = new_fd()
+                try:
+                    got = bool(fd.call_function(fn, [px, py, False, .001]))
+                except Raised as e:
+                    got = 'raises ' + e.kind
+                except Inconclusive as e:
+                    raise AnalysisError("C07 R6: equality_test outside the decidable fragment on %r: %s" % ((px, py), e))
+                ctx.check(got is want, 'R6', 'equality_test(%r,%r):proxied' % (px, py), mod, fn,
+                          "equality_test(%r, %r) is %s; for the plain values it is %s" % (px, py, got, want),
+                          "assert_equal(call('ident', %r), %r) fails although the values are equal within the "
+                          "tolerance" % (x, y))
     # the non-default parameters must reach every nested comparison (exact strings, a custom delta)
     param_cases = []
     for wrap, label in ((lambda v: v, 'scalar'), (lambda v: [v], 'list'), (lambda v: (v,), 'tuple'),
